@@ -8,6 +8,8 @@ import (
 	"go/token"
 	"go/types"
 	"strings"
+
+	"golang.org/x/tools/go/ssa"
 )
 
 type specError struct{ msg string }
@@ -546,6 +548,72 @@ func (sc *Scope) call(x ECall) V {
 		from := vc.resolveType(x.Args[1].String())
 		to := vc.resolveType(x.Args[2].String())
 		return vc.convValue(sc.st, v, from, to)
+	case "alloc":
+		// alloc(T, k): the object created by the k-th allocation of a T in the function (block order)
+		need(2)
+		t := vc.resolveType(x.Args[0].String())
+		k := 0
+		if lit, ok := x.Args[1].(EInt); ok {
+			fmt.Sscanf(lit.V, "%d", &k)
+		}
+		n := 0
+		for _, b := range vc.fn.Blocks {
+			for _, in := range b.Instrs {
+				al, ok := in.(*ssa.Alloc)
+				if !ok {
+					continue
+				}
+				if types.Identical(al.Type().Underlying().(*types.Pointer).Elem(), t) {
+					n++
+					if n == k {
+						fr := sc.st.frames[0]
+						if v, ok := fr.env[al].(V); ok {
+							return v
+						}
+						specFail("alloc(%s,%d) has not been executed on this path", x.Args[0], k)
+					}
+				}
+			}
+		}
+		specFail("alloc(%s,%d): no such allocation", x.Args[0], k)
+	case "isClosure":
+		need(2)
+		v := arg(0)
+		name, ok := x.Args[1].(EStr)
+		if !ok {
+			specFail("isClosure expects a function name string")
+		}
+		f := vc.eng.funcs[name.V]
+		if f == nil {
+			specFail("isClosure: unknown function %q", name.V)
+		}
+		w.declare("closureFn", "(declare-fun closureFn (Int) Int)")
+		return V{and(app(">", v.T, "0"), eq(app("closureFn", v.T), fmt.Sprint(vc.fnID(f)))), SBool, nil}
+	case "binding":
+		need(3)
+		v := arg(0)
+		name, ok := x.Args[1].(EStr)
+		if !ok {
+			specFail("binding expects a function name string")
+		}
+		f := vc.eng.funcs[name.V]
+		if f == nil {
+			specFail("binding: unknown function %q", name.V)
+		}
+		idx, ok := x.Args[2].(EInt)
+		if !ok {
+			specFail("binding expects a constant index")
+		}
+		i := 0
+		fmt.Sscanf(idx.V, "%d", &i)
+		if i >= len(f.FreeVars) {
+			specFail("binding: %s has no free variable %d", name.V, i)
+		}
+		ft := f.FreeVars[i].Type()
+		so := w.sortOf(ft)
+		fn := fmt.Sprintf("closureBind%d_%s", i, sortName(so))
+		w.declare(fn, fmt.Sprintf("(declare-fun %s (Int) %s)", fn, so))
+		return V{app(fn, v.T), so, ft}
 	case "held":
 		need(1)
 		return sc.lockState(x.Args[0])
@@ -688,4 +756,17 @@ func (vc *FuncVC) safeExec(sc *Scope, stmts []Stmt, what string) {
 		}
 	}()
 	sc.exec(stmts)
+}
+
+func (vc *FuncVC) tryBool(sc *Scope, e Expr) (res string, ok bool) {
+	defer func() {
+		if r := recover(); r != nil {
+			if _, is := r.(specError); is {
+				res, ok = "", false
+				return
+			}
+			panic(r)
+		}
+	}()
+	return sc.evalBool(e), true
 }
